@@ -1,7 +1,8 @@
 import SA.Model.TlsConfig
+import SA.Model.TlsServerKinds
 namespace SA.Drv.TlsConfig
 /-- component keyword → handler over the remaining tokens of the line -/
 def entries : List (String × (List String → String)) :=
-  [("tlscfg", SA.TlsConfig.handleTlscfg), ("authmatrix", SA.TlsConfig.handleAuthmatrix),
+  [("tlscfg", SA.TlsConfig.handleTlscfg), ("authmatrix", SA.TlsConfig.handleAuthmatrixK),
    ("tlshist", SA.TlsConfig.handleTlshist)]
 end SA.Drv.TlsConfig
